@@ -77,7 +77,9 @@ func SpecFor(rs routeSet) []byte {
 			fmt.Fprintf(&b, "    %s:\n      operationId: t%d_%s\n", strings.ToLower(m), i, m)
 			if n := nParams(e.T); n > 0 {
 				b.WriteString("      parameters:\n")
-				for k := 1; k <= n; k++ {
+				// declared against the order of their places in the template: the arguments the router
+				// cuts are in path order, the decoder finds each declared parameter's argument by index
+				for k := n; k >= 1; k-- {
 					fmt.Fprintf(&b, "        - {name: p%d, in: path, required: true, schema: {type: string}}\n", k)
 				}
 			}
@@ -318,7 +320,11 @@ func Check(r *core.Run) error {
 		routeSet{{T: []string{"/", P}, Ms: []string{"GET"}}, {T: []string{"/", "a", "b", "/", "a"}, Ms: []string{"GET"}}, {T: []string{"/", "a", "b", "/", "b"}, Ms: []string{"GET"}}},
 		routeSet{{T: []string{"/", P, "a"}, Ms: []string{"GET"}}},
 		routeSet{{T: []string{"/", P}, Ms: []string{"GET"}}, {T: []string{"/", "a", P, "/"}, Ms: []string{"GET"}}},
-		routeSet{{T: []string{"/", "a", "/", P}, Ms: []string{"GET"}}, {T: []string{"/", "a", "/", "b"}, Ms: []string{"POST"}}, {T: []string{"/", "a", "/", P, "/", "b"}, Ms: []string{"GET", "POST"}}},
+		routeSet{{T: []string{"/", "a", "/", P}, Ms: []string{"GET"}}, {T: []string{"/", "a", "/", "b"}, Ms: []string{"POST"}}, {T: []string{"/", "a", "/", P, "/", "b"}, Ms: []string{"GET", "POST"}}}, // two and three parameters in one template (arguments that differ from each other: which
+		// argument reaches which declared parameter is part of the outcome)
+		routeSet{{T: []string{"/", P, "/", P}, Ms: []string{"GET"}}},
+		routeSet{{T: []string{"/", P, "a", P}, Ms: []string{"GET", "POST"}}, {T: []string{"/", P, "/", P, "/", P}, Ms: []string{"GET"}}},
+		routeSet{{T: []string{"/", "a", "/", P, "/", P}, Ms: []string{"GET"}}, {T: []string{"/", P, "/", "b"}, Ms: []string{"GET"}}},
 	)
 	rng := rand.New(rand.NewPCG(uint64(r.Seed), 0xC05))
 	for i := 0; i < nRand; i++ {
